@@ -404,6 +404,28 @@ def spec_mutant(chk, name, module, cfg, edits, workers=8, timeout=900):
     return refuted
 
 
+def tlaps_prove(module, edits=(), timeout=900):
+    """Run the TLA+ proof system on a scratch copy of the specification directory (optionally with
+    textual edits applied first: a proof mutant that must NOT go through).
+    Returns (all_proved, number_of_obligations, tail_of_output)."""
+    d = os.path.join(WORK, "tlaps_" + module.replace(".tla", "") + ("_mut" if edits else ""))
+    shutil.rmtree(d, ignore_errors=True)
+    os.makedirs(d)
+    for f in os.listdir(SPEC):
+        if f.endswith(".tla"):
+            shutil.copy(os.path.join(SPEC, f), d)
+    for fname, old, new in edits:
+        path = os.path.join(d, fname)
+        text = open(path).read()
+        if old not in text:
+            raise ToolError(f"proof mutant: pattern not found in {fname}")
+        open(path, "w").write(text.replace(old, new))
+    rc, out = sh(["tlapm", "--threads", "4", "--cleanfp", module], timeout=timeout, cwd=d)
+    m = re.search(r"All (\d+) obligations? proved", out)
+    shutil.rmtree(d, ignore_errors=True)
+    return (m is not None and rc == 0), (int(m.group(1)) if m else 0), out[-1500:]
+
+
 def tlc_replays(module, cfg, num=200, depth=20, timeout=600, exhaustive=False, workers=1):
     """Behaviours printed by a spec as <<"REPLAY", ToJson(hist)>> (simulation mode, or exhaustive
     search when the config bounds the depth). Returns a list of distinct behaviours."""
